@@ -267,6 +267,10 @@ fn run_check(args: &[String]) -> i32 {
     let py_script = format!("{}/py/pycheck.py", ctx.verif_dir);
     let mut explanation = plan.explanation.clone();
     explanation.push_str(&escalation_note);
+    if let Some(t) = arg_after(args, "--tie-note").and_then(|p| std::fs::read_to_string(p).ok()) {
+        explanation.push_str("; ");
+        explanation.push_str(t.trim());
+    }
     let mut o = match prop.as_str() {
         "C10" => {
             explanation = "order/duplicates of the list, repeated build(), clone, setter order with build() in between, field-by-field configuration, 16 threads and fresh processes (fresh hash seeds) on a hash-order-sensitive family: every variant must equal a fresh builder's output; outputs compared with the Lean model".into();
